@@ -83,6 +83,32 @@ def gen(tier, rng):
         for segs, kind in splits_for(rng, stream, tier):
             first = segs[0] if len(segs) == 1 else None
             yield base + " seg=%s gap=1" % ",".join(str(x) for x in segs), {"kind": kind}
+    # a streamed body (Content-Length > 1024) that the application does not read to its end, with pipelined requests
+    # behind it: what is left of the body is discarded by the library, and where it stops must not depend on how much of
+    # the following requests had already arrived
+    for i in range(8 if tier == "quick" else 80):
+        size = rng.choice([1025, 1500, 2048, 3000, 9000, 20000])
+        body = body_bytes("u%d" % i, size)
+        r = AReq(method="POST", target="/unread%d" % i, version="1.1", headers=[("Host", "h")], framing="cl", body=body)
+        reads = rng.choice([[], [], [(10, 10)], [(size // 2, 512)], [(1, 1)]])
+        fin = rng.choice([respond_str(200, b"ok", True), respond_str(413, b"big", True), "D"])
+        stream = r.render()
+        acts = [action_str(reads, fin)]
+        b1 = len(stream)
+        for k in range(1 + rng.below(3)):
+            f = AReq(method="GET", target="/next%d.%d" % (i, k), version="1.1", headers=[("Host", "h")])
+            stream += f.render()
+            acts.append(action_str([], respond_str(200, body_bytes("n%d" % k, 4), True)))
+        base = cv_line(stream, acts)
+        yield base, {"kind": "unsplit", "family": "unread-streamed-body"}
+        n = len(stream)
+        h = len(r.render_head())
+        cuts = [[h], [h + 1], [h + size // 2], [b1 - 1], [b1], [b1 + 1], [b1 + 10], [1024], [1023], [h, size // 2, size - size // 2]]
+        for c in cuts:
+            if all(0 < x for x in c) and sum(c) < n:
+                yield base + " seg=%s gap=1" % ",".join(str(x) for x in c), {"kind": "unread-body-cut", "family": "unread-streamed-body"}
+        for segs, kind in splits_for(rng, stream, tier)[-5:]:
+            yield base + " seg=%s gap=1" % ",".join(str(x) for x in segs), {"kind": kind, "family": "unread-streamed-body"}
     # TCP sample
     for i in range(nb, nb + 6):
         stream, acts = base_conv(rng, i)
